@@ -133,8 +133,15 @@ static void viol(const std::string& tag, const std::string& detail)
     _exit(code);
 }
 
+static int  g_fail_in  = 0;     // > 0: the g_fail_in-th library malloc from now on returns null (fault injection, sequential part)
+static bool g_fail_hit = false;
 extern "C" void* __wrap_malloc(std::size_t n)
 {
+    if (g_fail_in > 0 && --g_fail_in == 0)
+    {
+        g_fail_hit = true;
+        return nullptr;
+    }
     void* p = __real_malloc(n);
     ++g_mallocs;
     if (p && g_nlive < MAXBLK)
@@ -188,6 +195,7 @@ static void invptr_h(const fm::allocator_info& info, const void*)
         child_fatal(87); // the handler is required not to return
 }
 static void badsize_h(const fm::allocator_info&, std::size_t, std::size_t) {}
+static void oom_h(const fm::allocator_info&, std::size_t) {}
 
 struct exit_rec
 {
@@ -350,7 +358,7 @@ struct counters
 {
     long acquires = 0, adoptions = 0, creations = 0, scopes = 0, scopes_over_blocks = 0, scopes_grown_twice = 0, grows = 0,
          size_exceptions = 0, reacquire_after_release = 0, releases = 0, excl_checks = 0, points = 0, max_stacks = 0,
-         inside_checks = 0, contended_acquires = 0, release_checks = 0, release_checks_grown = 0;
+         inside_checks = 0, contended_acquires = 0, release_checks = 0, release_checks_grown = 0, faults_hit = 0, faults_not_reached = 0, retries_after_fault = 0;
 };
 static counters C;
 
@@ -841,6 +849,7 @@ static void main_use()
 struct exec_result
 {
     bool                   gotR = false, gotE = false, gotC = false, timed_out = false;
+    bool                   cut = false; // 'K': the child ended early on purpose after a tolerated known finding (no exit record)
     sched::run_result      r;
     std::vector<violation> v;
     exit_rec               e{};
@@ -1040,6 +1049,9 @@ static exec_result in_child_once(Body body, child_limits lim)
             std::memcpy(&er.c, d, std::min<std::size_t>(l, sizeof er.c));
             er.gotC = true;
             break;
+        case 'K':
+            er.cut = true;
+            break;
         case 'H':
             er.hashes.resize(l / 8);
             std::memcpy(er.hashes.data(), d, l / 8 * 8);
@@ -1105,7 +1117,7 @@ static std::vector<violation> judge(const exec_result& er, bool conc, std::vecto
         }
     }
     else
-        reached_exit = er.gotC;
+        reached_exit = er.gotC && !er.cut;
     if (!er.timed_out)
     {
         if (WIFSIGNALED(er.status))
@@ -1306,6 +1318,7 @@ static void setup_handlers()
     fm::set_leak_handler(leak_h);
     fm::set_invalid_pointer_handler(invptr_h);
     fm::bad_allocation_size::set_handler(badsize_h);
+    fm::out_of_memory::set_handler(oom_h);
 }
 
 static void write_out(const argmap& a, const std::string& s)
@@ -1334,6 +1347,9 @@ static void add_counters(counters& a, const counters& b)
     a.contended_acquires += b.contended_acquires;
     a.release_checks += b.release_checks;
     a.release_checks_grown += b.release_checks_grown;
+    a.faults_hit += b.faults_hit;
+    a.faults_not_reached += b.faults_not_reached;
+    a.retries_after_fault += b.retries_after_fault;
     a.max_stacks = std::max(a.max_stacks, b.max_stacks);
 }
 static std::string counters_json(const counters& c)
@@ -1353,6 +1369,9 @@ static std::string counters_json(const counters& c)
         .num("allocations_checked_inside_stack", c.inside_checks)
         .num("releases_checked_cleared_at_the_store", c.release_checks)
         .num("releases_checked_of_a_stack_that_had_grown", c.release_checks_grown)
+        .num("upstream_failures_injected_and_hit", c.faults_hit)
+        .num("upstream_failures_armed_but_not_reached", c.faults_not_reached)
+        .num("acquisitions_after_a_failed_one", c.retries_after_fault)
         .num("exclusivity_checks", c.excl_checks)
         .num("atomic_operations_as_scheduling_points", c.points)
         .num("max_stacks_in_list", c.max_stacks)
@@ -1684,9 +1703,15 @@ enum sop
     S_A1, // allocate(8, 8)
     S_A2, // allocate(100, 16)
     S_A3, // allocate(3000, 1)
+    // upstream failure (at most one per sequence, only while the thread has no stack): the k-th malloc of the operation returns null
+    S_FI1, // I+ with its 1st malloc failing
+    S_FI2, // I+ with its 2nd malloc failing
+    S_FG1, // G  with its 1st malloc failing
+    S_FG2, // G  with its 2nd malloc failing
     N_SOPS
 };
-static const char* const SOP_NAME[N_SOPS] = {"I+", "I-", "G", "open", "close", "alloc(8,8)", "alloc(100,16)", "alloc(3000,1)"};
+static const char* const SOP_NAME[N_SOPS] = {"I+", "I-", "G", "open", "close", "alloc(8,8)", "alloc(100,16)", "alloc(3000,1)",
+                                               "I+[malloc#1 fails]", "I+[malloc#2 fails]", "G[malloc#1 fails]", "G[malloc#2 fails]"};
 static const int         MAX_NEST          = 3;
 
 static std::string seq_str(const std::vector<int>& ops)
@@ -1702,6 +1727,14 @@ static std::string seq_json(const std::vector<int>& ops, int warm)
 }
 
 static std::unordered_set<sched::u64> g_seq_states;
+static std::set<std::string>          g_tolerate; // tags of known findings: recorded, the enumeration goes on behind them
+static bool all_tolerated(const std::vector<violation>& v)
+{
+    for (auto& x : v)
+        if (!g_tolerate.count(x.tag))
+            return false;
+    return !v.empty();
+}
 
 static void seq_state(int ninit, const std::vector<scope_rec>& sc)
 {
@@ -1741,11 +1774,93 @@ static void run_seq(const std::vector<int>& ops)
         else if (s != t.cur)
             viol("stack-changed", "the thread was handed a different stack although it already has one");
     };
+    bool failed_before = false;
+    // an acquisition during which the k-th malloc returns null: must end in an exception derived from std::bad_alloc and
+    // leave the thread without a stack; everything afterwards (retry included) is judged by the ordinary oracles
+    auto faulted = [&](int k, bool with_initializer) {
+#if TSM >= 2
+        int nodes_before = list_walk(nullptr, nullptr, nullptr, 64);
+#endif
+        acquire_begin(0);
+        g_fail_in  = k;
+        g_fail_hit = false;
+        bool          threw = false, bad_alloc = false;
+        const tstack* got   = nullptr;
+        try
+        {
+            if (with_initializer)
+                inits.emplace_back(new fm::temporary_stack_initializer(SMALL));
+            got = &fm::get_temporary_stack(SMALL);
+        }
+        catch (const std::bad_alloc&)
+        {
+            threw = bad_alloc = true;
+        }
+        catch (...)
+        {
+            threw = true;
+        }
+        bool hit  = g_fail_hit;
+        g_fail_in = 0;
+        if (!hit)
+        {
+            ++C.faults_not_reached; // the operation made fewer mallocs: an ordinary acquisition
+            if (threw)
+                viol("spurious-exception", "an acquisition threw although no upstream call failed");
+            else
+                acquire_end(0, got, ever_released);
+            return;
+        }
+        ++C.faults_hit;
+        failed_before = true;
+        if (!threw)
+        {
+            viol("failure-absorbed", "the upstream allocation failed (malloc returned null) but the acquisition of the temporary stack returned normally");
+            acquire_end(0, got, ever_released);
+            return;
+        }
+        if (!bad_alloc)
+            viol("wrong-exception", "an upstream failure surfaced as an exception that is not derived from std::bad_alloc");
+        // the thread has no stack (and, for I+, no initializer object: its constructor threw)
+        t.acquiring = false;
+        --C.acquires;
+#if TSM >= 2
+        {
+            // the failed acquisition must leave the list as it was: no new (half-constructed) stack, nothing marked in use (this
+            // thread is the only one and owns no stack)
+            bool f[64];
+            int  n = list_walk(nullptr, nullptr, f, 64);
+            if (n > nodes_before)
+                viol("failed-creation-left-in-list", fmt("creating the temporary stack failed with out_of_memory, but the list now holds %d stack(s) instead of %d: a stack "
+                                                         "object whose constructor did not finish is linked into the global list",
+                                                         n, nodes_before));
+            else
+                for (int i = 0; i < n; ++i)
+                    if (f[i])
+                    {
+                        viol("failed-acquisition-keeps-stack", fmt("adopting a free temporary stack failed with out_of_memory, but stack #%d stays marked in use although no "
+                                                                   "thread owns it: it can never be reused",
+                                                                   i));
+                        break;
+                    }
+        }
+#endif
+    };
     for (int op : ops)
     {
         vsay("  %s\n", SOP_NAME[op]);
+        if (failed_before && !t.has && (op == S_IPLUS || op == S_G || op == S_OPEN))
+            ++C.retries_after_fault;
         switch (op)
         {
+        case S_FI1:
+        case S_FI2:
+            faulted(op == S_FI1 ? 1 : 2, true);
+            break;
+        case S_FG1:
+        case S_FG2:
+            faulted(op == S_FG1 ? 1 : 2, false);
+            break;
         case S_IPLUS:
             acquire([&] {
                 inits.emplace_back(new fm::temporary_stack_initializer(SMALL));
@@ -1837,7 +1952,7 @@ static void warm_up()
 }
 
 // all valid sequences with 1..D operations
-static void gen_seqs(int D, std::vector<int>& cur, int ninit, int nscope, std::vector<std::vector<int>>& out)
+static void gen_seqs(int D, std::vector<int>& cur, int ninit, int nscope, bool has, bool faulted, std::vector<std::vector<int>>& out)
 {
     if (!cur.empty())
         out.push_back(cur);
@@ -1845,23 +1960,37 @@ static void gen_seqs(int D, std::vector<int>& cur, int ninit, int nscope, std::v
         return;
     for (int op = 0; op < N_SOPS; ++op)
     {
-        int ni = ninit, ns = nscope;
+        int  ni = ninit, ns = nscope;
+        bool h = has, f = faulted;
         switch (op)
         {
+        case S_FI1:
+        case S_FI2:
+        case S_FG1:
+        case S_FG2:
+            if (faulted || has) // deviation bound 1; only where the operation has to obtain a stack
+                continue;
+            f = true; // the operation fails: no stack, no initializer (a fault that is not reached is a plain I+/G: the
+                      // harness then tracks the live initializer itself; later I- stay valid because they need ninit > 0 here)
+            break;
         case S_IPLUS:
             ++ni;
+            h = true;
             break;
         case S_IMINUS:
             if (ninit == 0 || nscope > 0) // destroying the stack under a live temporary_allocator is a misuse
                 continue;
             --ni;
+            h = false;
             break;
         case S_G:
+            h = true;
             break;
         case S_OPEN:
             if (nscope == MAX_NEST)
                 continue;
             ++ns;
+            h = true;
             break;
         case S_CLOSE:
             if (nscope == 0)
@@ -1873,7 +2002,7 @@ static void gen_seqs(int D, std::vector<int>& cur, int ninit, int nscope, std::v
                 continue;
         }
         cur.push_back(op);
-        gen_seqs(D, cur, ni, ns, out);
+        gen_seqs(D, cur, ni, ns, h, f, out);
         cur.pop_back();
     }
 }
@@ -1884,6 +2013,11 @@ static void gen_seqs(int D, std::vector<int>& cur, int ninit, int nscope, std::v
         warm_up();
     run_seq(ops);
     send_msg('C', &C, sizeof C);
+    if (all_tolerated(g_viol))
+    {
+        send_msg('K', "", 0); // the state behind a known finding is not judged
+        child_fatal(0);
+    }
     g_exit_record = true;
     std::exit(0);
 }
@@ -1922,13 +2056,27 @@ static int seq_main(const argmap& a)
     long   part = 0, parts = 1;
     if (a.has("part"))
         std::sscanf(a.s("part").c_str(), "%ld/%ld", &part, &parts);
+    {
+        std::string t = a.s("tolerate", "");
+        std::size_t p = 0;
+        while (p < t.size())
+        {
+            auto q = t.find(',', p);
+            if (q == std::string::npos)
+                q = t.size();
+            if (q > p)
+                g_tolerate.insert(t.substr(p, q - p));
+            p = q + 1;
+        }
+    }
+    std::map<std::string, int> tolerated_count;
     const std::size_t BATCH = 1000;
     child_limits      batch_limits;
     batch_limits.cpu_s = 120; // 1000 sequences need well under 1 s of cpu time
 
     std::vector<std::vector<int>> all;
     std::vector<int>              cur;
-    gen_seqs(D, cur, 0, 0, all);
+    gen_seqs(D, cur, 0, 0, false, false, all);
     std::vector<std::size_t> mine;
     for (std::size_t i = 0; i < all.size(); ++i)
         if (long(i % std::size_t(parts)) == part)
@@ -1960,9 +2108,10 @@ static int seq_main(const argmap& a)
 
     bool stop = false;
     // 1. every sequence, in batches: one child runs BATCH sequences one after the other from the canonical start
-    for (std::size_t b = 0; b < mine.size() && !stop; b += BATCH)
+    for (std::size_t b = 0, next_b = 0; b < mine.size() && !stop; b = next_b)
     {
         std::size_t e = std::min(mine.size(), b + BATCH);
+        next_b        = e;
         *progress     = -1;
         ++batches;
         exec_result er = in_child(
@@ -1973,7 +2122,17 @@ static int seq_main(const argmap& a)
                     *progress = long(k);
                     run_seq(all[mine[k]]);
                     if (!g_viol.empty())
+                    {
+                        if (all_tolerated(g_viol))
+                        {
+                            send_msg('C', &C, sizeof C);
+                            std::vector<sched::u64> hs(g_seq_states.begin(), g_seq_states.end());
+                            send_msg('H', hs.data(), hs.size() * 8);
+                            send_msg('K', "", 0);
+                            child_fatal(0);
+                        }
                         child_fatal(1);
+                    }
                 }
                 *progress = long(e);
                 send_msg('C', &C, sizeof C);
@@ -1997,6 +2156,18 @@ static int seq_main(const argmap& a)
             evaluations += long(e - b);
             for (std::size_t k = b; k < e; ++k)
                 transitions += all[mine[k]].size();
+            continue;
+        }
+        if (er.cut && all_tolerated(v) && done >= long(b) && done < long(e))
+        {
+            // known finding in sequence `done`: record it, go on with the next sequence in a new process (canonical start again)
+            for (auto& x : v)
+                if (tolerated_count[x.tag]++ == 0)
+                    viols.raw(jobj().str("tag", x.tag).str("detail", x.detail + " | sequence: " + seq_str(all[mine[std::size_t(done)]]) + " (a free stack existed)").raw("input", seq_json(all[mine[std::size_t(done)]], 1)).done());
+            evaluations += done - long(b) + 1;
+            for (std::size_t k = b; k <= std::size_t(done); ++k)
+                transitions += all[mine[k]].size();
+            next_b = std::size_t(done) + 1;
             continue;
         }
         stop = true;
@@ -2025,7 +2196,13 @@ static int seq_main(const argmap& a)
         for (auto& x : herr)
             herr_list.push_back(seq_str(ops) + ": " + x);
         transitions += ops.size();
-        if (!v.empty())
+        if (er.cut && all_tolerated(v))
+        {
+            for (auto& x : v)
+                if (tolerated_count[x.tag]++ == 0)
+                    viols.raw(jobj().str("tag", x.tag).str("detail", x.detail + " | sequence: " + seq_str(ops) + " (fresh process)").raw("input", seq_json(ops, 0)).done());
+        }
+        else if (!v.empty())
         {
             confirm(ops, 0, v);
             stop = true;
@@ -2062,6 +2239,12 @@ static int seq_main(const argmap& a)
         .num("timeouts_not_reproduced", g_timeouts_not_reproduced)
         .raw("counters", counters_json(tot))
         .raw("violating_by_tag", vc.done())
+        .raw("tolerated_known_findings_by_tag", [&] {
+            jobj tc;
+            for (auto& kv : tolerated_count)
+                tc.num(kv.first, kv.second);
+            return tc.done();
+        }())
         .str("part", "seq");
     jobj out;
     out.num("evaluations", evaluations + fresh_runs)
